@@ -166,3 +166,19 @@ Proof.
   eapply aeq_trans; [apply abs_after2|]. eapply aeq_trans; [|apply aeq_sym; apply abs_after].
   rewrite (classify_set_whole kd n _ Hn). apply absorb_write. exact Ht.
 Qed.
+
+Lemma absorb_remove a cn s : touches_only cn s = true ->
+  aeq (fst (sstep (fst (sstep a s)) (SRemove cn))) (fst (sstep a (SRemove cn))).
+Proof.
+  intros Ht.
+  pose proof (absorb_write a cn s VNotSet Ht) as H. exact H.
+Qed.
+
+Theorem unset_absorbs kd st o n h : whole_ok n = true ->
+  touches_only (canon n) (classify kd o) = true ->
+  snd (run kd (after kd (after kd st o) (OUnset n)) h) = snd (run kd (after kd st (OUnset n)) h).
+Proof.
+  intros Hn Ht. apply abs_equiv_observations.
+  eapply aeq_trans; [apply abs_after2|]. eapply aeq_trans; [|apply aeq_sym; apply abs_after].
+  rewrite (classify_unset_whole kd n Hn). apply absorb_remove. exact Ht.
+Qed.
